@@ -21,7 +21,7 @@ RULE = ('load: real ISMRMRD/HDF5 files written per case (labels k1,k2 + up to 2 
         'samples; trajectory from Cartesian/radial/RPE calculators, stored 2-/3-column trajectories or a user trajectory); ids of data, '
         'every AcqInfo field and trajectory compared exactly with Model/KLoad.v under vm_compute; a second file with another order and '
         'without the rejected acquisitions must load identically. permutations: every order of a small file. flag_filter: every single '
-        'flag bit. sunflower: KTrajectorySunflowerGoldenRpe on complete grids against a numpy oracle built from the k1/k2 indices. pulseq: pypulseq-written .seq files. translator: Gen/kload_gen.v regenerated from enums.py / acq_filters.py / KData.py (9 obligations). Non-trivial = at least 2 kept acquisitions in a non-sorted file order; distinct by case hash.')
+        'flag bit. sunflower: KTrajectorySunflowerGoldenRpe on complete grids against a numpy oracle built from the k1/k2 indices. calculator_history: ONE calculator object used for two files in a row (Pulseq with seq_path changed or the same path overwritten, other spokes / readout length; Cartesian / radial / RPE on two different headers) must give what a fresh calculator gives and the analytic trajectory. pulseq: pypulseq-written .seq files. translator: Gen/kload_gen.v regenerated from enums.py / acq_filters.py / KData.py (9 obligations). Non-trivial = at least 2 kept acquisitions in a non-sorted file order; distinct by case hash.')
 TRUSTED_BASE = ['translator harness/translate/kload.py (ast -> Gallina for AcqFlags, DEFAULT_IGNORE_FLAGS, KDIM_SORT_LABELS, OTHER_LABELS; fail-closed)',
                 'harness/ismrmrd_writer.py (ids encoded in data / trajectory / header fields) and the ismrmrd + h5py libraries that store them',
                 'numpy lexsort, einops.rearrange, torch.unique (modelled as stable sort / row-major reshape / counting, validated by correspondence)',
@@ -323,13 +323,13 @@ def observe(kd, c):
             'k0_limits': [lim.k0.min, lim.k0.max, lim.k0.center]}
 
 
-def _load(c, order, keep_kinds=('image', 'rejected', 'othercoil')):
+def _load(c, order, keep_kinds=('image', 'rejected', 'othercoil'), traj_arg=None):
     from mrpro.data import KData
     fn = os.path.join(_tmpdir(), f'c14_{os.getpid()}.h5')
     acqs = [dict(c['acqs'][i], stamp_offset=c.get('stamp_offset', 0)) for i in order if c['acqs'][i]['kind'] in keep_kinds]
     W.write_file(fn, acqs, n_k0=c['n_k0'], header_xml=_header_xml(c), traj_dims=2 if c['traj'] == 'ismrmrd2' else 3)
     try:
-        kd = KData.from_file(fn, _trajectory_arg(c))
+        kd = KData.from_file(fn, traj_arg if traj_arg is not None else _trajectory_arg(c))
         return observe(kd, c)
     except Exception as e:  # noqa: BLE001
         return {'raises': vlib.exc_enum(e), 'msg': str(e)[:160]}
@@ -663,13 +663,14 @@ def _write_seq(c, fn):
     return seq
 
 
-def impl_pulseq(c):
+def _pulseq_load(c, calc=None, seqfn=None, tag=''):
+    """write the .seq file of case c to seqfn and a matching raw data file, load it with `calc` (a fresh calculator if None)"""
     import pypulseq as pp
     from mrpro.data import KData
     from mrpro.data.traj_calculators import KTrajectoryPulseq
     d = _tmpdir()
-    seqfn = os.path.join(d, f'c14_{os.getpid()}.seq')
-    fn = os.path.join(d, f'c14p_{os.getpid()}.h5')
+    seqfn = seqfn or os.path.join(d, f'c14{tag}_{os.getpid()}.seq')
+    fn = os.path.join(d, f'c14p{tag}_{os.getpid()}.h5')
     _write_seq(c, seqfn)
     seq = pp.Sequence()
     seq.read(seqfn)
@@ -684,14 +685,29 @@ def impl_pulseq(c):
         a['labels'] = {'k1': o}
     W.write_file(fn, acqs, n_k0=c['n_k0'], header_xml=W.xml_header(enc_matrix=tuple(c['enc']), trajectory='other'))
     try:
-        kd = KData.from_file(fn, KTrajectoryPulseq(seq_path=seqfn, repeat_detection_tolerance=None))
+        if calc is None:
+            calc = KTrajectoryPulseq(seq_path=seqfn, repeat_detection_tolerance=None)
+        kd = KData.from_file(fn, calc)
         tr = kd.traj.as_tensor().expand(3, 1, 1, c['n_spokes'], c['n_k0'])
         return {'k_raw': [[Fraction(float(v)).limit_denominator(10 ** 12).numerator, Fraction(float(v)).limit_denominator(10 ** 12).denominator]
                           for v in k[:3].flatten().tolist()],
                 'traj': tr.flatten().tolist(), 'ids': [int(v) for v in kd.header.acq_info.scan_counter.flatten().tolist()],
                 'finite': bool(torch.isfinite(tr).all())}
+    except Exception as e:  # noqa: BLE001
+        return {'raises': vlib.exc_enum(e), 'msg': str(e)[:160]}
     finally:
         W.remove(fn)
+
+
+def impl_pulseq(c):
+    d = _tmpdir()
+    seqfn = os.path.join(d, f'c14_{os.getpid()}.seq')
+    try:
+        o = _pulseq_load(c, seqfn=seqfn)
+        if 'raises' in o and 'k_raw' not in o:
+            raise RuntimeError(o['msg'])
+        return o
+    finally:
         W.remove(seqfn)
 
 
@@ -714,6 +730,72 @@ def oracle_pulseq(c, o):
                     return (f'k{name} of the readout with id {aid} (ADC event {aid - 1}) sample {j}: {got}, sequence events give '
                             f'{want} (= k * enc / (2 max|k|))')
     return None
+
+
+# ------------------------------------------------------------------------------------------------
+# call histories on ONE calculator object: a second call (other sequence file / other header) must not see the first
+# ------------------------------------------------------------------------------------------------
+def gen_history(rng, tier):
+    cases = []
+    for k in range(6 if tier == 'quick' else 40):
+        a, b = gen_pulseq(rng, 'quick')[:2]
+        if k % 3 == 0:                       # same shapes, other angles / extent: nothing but the values can tell
+            b = dict(b, n_spokes=a['n_spokes'], n_k0=a['n_k0'])
+            b['axes'] = 'xyz' if a['axes'] != 'xyz' else 'xy'
+        cases.append({'kind': 'pulseq', 'first': a, 'second': b, 'same_path': k % 2 == 0})
+    for _ in range(8 if tier == 'quick' else 80):
+        t = rng.choice(['cartesian', 'radial', 'rpe', 'sunflower'])
+        a = make_case(rng, variant='grid', traj=t)
+        b = make_case(rng, variant='grid', traj=t)
+        b['angle_num'] = a['angle_num']
+        for c_ in (a, b):
+            if t == 'sunflower':
+                img = [x for x in c_['acqs'] if x['kind'] == 'image']
+                k2v = sorted({x['labels']['k2'] for x in img})
+                for x in c_['acqs']:
+                    x['labels']['k2'] = k2v.index(x['labels']['k2']) if x['labels'].get('k2') in k2v else 0
+            c_['order2'] = None
+        if all(len(expected_kept(x)) >= 2 and all(y['kind'] == 'image' for y in expected_kept(x)) for x in (a, b)):
+            cases.append({'kind': t, 'first': a, 'second': b})
+    return cases
+
+
+def impl_history(c):
+    if c['kind'] == 'pulseq':
+        from mrpro.data.traj_calculators import KTrajectoryPulseq
+        d = _tmpdir()
+        seq1 = os.path.join(d, f'c14h1_{os.getpid()}.seq')
+        seq2 = seq1 if c['same_path'] else os.path.join(d, f'c14h2_{os.getpid()}.seq')
+        try:
+            _write_seq(c['first'], seq1)
+            calc = KTrajectoryPulseq(seq_path=seq1, repeat_detection_tolerance=None)
+            first = _pulseq_load(c['first'], calc=calc, seqfn=seq1, tag='h')
+            if not c['same_path']:
+                calc.seq_path = seq2
+            second = _pulseq_load(c['second'], calc=calc, seqfn=seq2, tag='h')      # (re)writes seq2, then calls the SAME object
+            fresh = _pulseq_load(c['second'], calc=None, seqfn=seq2, tag='h')
+            return {'first': first, 'second': second, 'fresh': fresh}
+        finally:
+            W.remove(seq1)
+            W.remove(seq2)
+    calc = _trajectory_arg(c['first'])
+    first = _load(c['first'], c['first']['order'], traj_arg=calc)
+    second = _load(c['second'], c['second']['order'], traj_arg=calc)
+    fresh = _load(c['second'], c['second']['order'])
+    return {'first': first, 'second': second, 'fresh': fresh}
+
+
+def oracle_history(c, o):
+    if 'raises' in o:
+        return f'history failed: {o}'
+    if o['second'] != o['fresh']:
+        what = 'raises ' + str(o['second'].get('msg')) if 'raises' in o['second'] else \
+            [k for k in o['fresh'] if o['second'].get(k) != o['fresh'].get(k)]
+        return (f'{c["kind"]} calculator used for one file and then for a second one returns something else for the second file than a '
+                f'fresh calculator does: {what}')
+    if c['kind'] == 'pulseq':
+        return oracle_pulseq(c['first'], o['first']) or oracle_pulseq(c['second'], o['second'])
+    return oracle_load(c['first'], o['first']) or oracle_load(c['second'], o['second'])
 
 
 def coq_pulseq(c):
@@ -771,5 +853,8 @@ FAMILIES = [
            shard=40, theorem='(KTrajectorySunflowerGoldenRpe: implementation-level oracle; loading part: C14_colocated ...)'),
     Family('flag_filter', gen_flags, impl_flags, coq_flags, PREAMBLE, cmp_flags, oracle_flags, theorem='C14_flag_filter'),
     Family('knoise', gen_noise, impl_noise, coq_noise, PREAMBLE, cmp_noise, oracle_noise, theorem='(model load_noise)'),
+    Family('calculator_history', gen_history, impl_history, None, '', None, oracle_history,
+           descr=lambda c: {'kind': c['kind'], 'n_kept': min(len(expected_kept(c['first'])), len(expected_kept(c['second']))) if c['kind'] != 'pulseq' else 2},
+           theorem='(implementation-level: a calculator is a function of its arguments; per-call results as in C14_cartesian_agrees / C14_pulseq_*)'),
     Family('pulseq', gen_pulseq, impl_pulseq, None, '', None, oracle_pulseq, theorem='C14_pulseq_defined, C14_pulseq_bound (implementation-level oracle)'),
 ]
